@@ -1101,7 +1101,7 @@ def search_ref(args):
     if st > len(w):
         if f == '' or set(f) <= {'*'}:
             raise Outside('search:empty-needle-start-beyond')
-        return VALUE, 'search:start-beyond'
+        return VALUE, 'search:start-beyond|' + _argclass(tags)
     if f == '':
         return float(st), 'search:empty-needle|' + _argclass(tags)
     rx, wild = _wild2re(f)
